@@ -120,7 +120,7 @@ class Fe(Family):
     def good_reply(self, rng, st, op, nums, data):
         code = CODE[op]
         if op in OPS_ACK:
-            return [(reply(code, W.u64(0 if rng.chance(4, 5) else rng.choice([1, 2**63]))), [])] if st.expects_ack() else []
+            return [(reply(code, W.u64(0 if rng.chance(3, 4) else rng.choice([1, 2**32, 2**63, 0xffffffff00000000, 2**64 - 22, 0x100]))), [])] if st.expects_ack() else []
         if op in ("get_features",):
             v = rng.choice([W.VF_PROTOCOL_FEATURES, W.VF_PROTOCOL_FEATURES | 0x3 | W.VF_LOG_ALL, 0, rng.next()])
             return [(reply(code, W.u64(v)), [])]
@@ -130,7 +130,7 @@ class Fe(Family):
         if op == "get_queue_num":
             return [(reply(code, W.u64(rng.choice([0, 1, 2, 8, 0x8000, 0x8001, 2**64 - 1]))), [])]
         if op in ("get_max_mem_slots", "check_device_state"):
-            return [(reply(code, W.u64(rng.choice([0, 0, 1, 509, 2**64 - 1]))), [])]
+            return [(reply(code, W.u64(rng.choice([0, 0, 1, 509, 2**32, 2**63, 2**64 - 1]))), [])]
         if op == "get_vring_base":
             return [(reply(code, W.vring_state(nums[0] & 0xffffffff, rng.choice([0, 1, 65535, 2**32 - 1]))), [])]
         if op == "get_config":
@@ -273,7 +273,7 @@ class Fe(Family):
         st.apf = W.PF_ALL
         steps.append(step("set_protocol_features", [W.PF_ALL], script=self.good_reply(rng, st, "set_protocol_features", [W.PF_ALL], b"")))
         for _ in range(1 + rng.below(3)):
-            op = rng.choice(OPS_REPLY + ["get_config", "get_config"])
+            op = rng.choice(OPS_REPLY + ["get_config", "get_config"] + OPS_ACK[:10])
             nums, data, fds, regions = self.args_for(rng, st, op)
             if op == "get_config":
                 size = rng.choice([2, 4, 8, 16, 0x100])
